@@ -102,6 +102,7 @@ def monStep (m : Mon) (l : Line) : Mon :=
   | "ag.suspend" => { m with parked := upd m.parked t true }
   | "ag.woke" => { m with parked := upd m.parked t false }
   | "tk.spurious" => { m with viol := s!"task {t}: the suspension of the pika task ended although no resume had been issued (spurious wake-up of the task agent)" :: m.viol }
+  | "tk.diff" => { m with viol := s!"the log of the run on pika tasks differs from the log of the run of the same case on OS threads (first difference at line {l.a}): the behaviour depends on the kind of agent" :: m.viol }
   | "tk.lost" => { m with viol := s!"task {t}: resumed {l.a} time(s) through pika's task agent but the task stays suspended and nothing in the runtime can wake it (lost wake-up of the task agent)" :: m.viol }
   | "once.body" =>
     let v1 := if m.inBody > 0 then [s!"thread {t} entered the call_once callable while another thread is inside it"] else []
